@@ -60,11 +60,14 @@ def file_sha(path):
 
 
 class Lock:
-    """Global lock: the work directory is shared by all checks."""
+    """Lock on a named group of generated files in the shared work directory."""
+
+    def __init__(self, name="global"):
+        self.name = name
 
     def __enter__(self):
         os.makedirs(BUILD, exist_ok=True)
-        self.f = open(os.path.join(BUILD, ".lock"), "w")
+        self.f = open(os.path.join(BUILD, ".lock_" + self.name), "w")
         fcntl.flock(self.f, fcntl.LOCK_EX)
         return self
 
@@ -73,30 +76,55 @@ class Lock:
         self.f.close()
 
 
-def static_lib_stamp():
-    """Hash of the static Coq library sources (part of every cache key)."""
-    h = hashlib.sha256()
-    for d in ("Lib", "Props", "Spec", "Model"):
-        p = os.path.join(COQ, d)
-        if not os.path.isdir(p):
+_IMPORT_RE = re.compile(r"From\s+(Lib|Props|Spec|Model|Gen|Run)\s+Require\s+(?:Import|Export)\s+([^.]*)\.")
+
+
+def _imports(src):
+    out = []
+    for m in _IMPORT_RE.finditer(src):
+        for name in m.group(2).split():
+            out.append((m.group(1), name))
+    return out
+
+
+def dep_hash(vfile, seen=None):
+    """Hash of a .v file together with everything it imports from this development (transitively)."""
+    seen = seen if seen is not None else {}
+    if vfile in seen:
+        return seen[vfile]
+    seen[vfile] = "cycle"
+    try:
+        src = open(vfile).read()
+    except OSError:
+        seen[vfile] = "missing"
+        return "missing"
+    parts = [src]
+    for (lib, name) in _imports(src):
+        base = {"Gen": GEN, "Run": RUN}.get(lib, os.path.join(COQ, lib))
+        parts.append(dep_hash(os.path.join(base, name + ".v"), seen))
+    seen[vfile] = sha(*parts)
+    return seen[vfile]
+
+
+def static_vo_fresh(vfile):
+    """True if every static (Lib/Props/Spec/Model) import of vfile has a compiled .vo newer than its source."""
+    try:
+        src = open(vfile).read()
+    except OSError:
+        return False
+    for (lib, name) in _imports(src):
+        if lib in ("Gen", "Run"):
             continue
-        for n in sorted(os.listdir(p)):
-            if n.endswith(".v"):
-                h.update(n.encode())
-                h.update(open(os.path.join(p, n), "rb").read())
-    return h.hexdigest()
+        v = os.path.join(COQ, lib, name + ".v")
+        vo = v[:-2] + ".vo"
+        if not os.path.exists(vo) or os.path.getmtime(vo) < os.path.getmtime(v):
+            return False
+    return True
 
 
 def coqc(vfile, timeout=900, cwd=None):
-    """Compile one .v file; cached on the hash of the file, its direct Gen/Run imports and the static lib."""
-    src = open(vfile).read()
-    deps = []
-    for m in re.finditer(r"From (Gen|Run) Require Import ([^.]*)\.", src):
-        for name in m.group(2).split():
-            base = GEN if m.group(1) == "Gen" else RUN
-            deps.append(file_sha(os.path.join(base, name + ".v")))
-            deps.append(file_sha(os.path.join(base, name + ".vo")))
-    key = sha(src, static_lib_stamp(), *deps)
+    """Compile one .v file; cached on the hash of the file and of everything it imports (transitively)."""
+    key = dep_hash(vfile)
     stamp = vfile + ".stamp"
     logf = vfile + ".log"
     vo = vfile[:-2] + ".vo"
@@ -104,7 +132,7 @@ def coqc(vfile, timeout=900, cwd=None):
         try:
             st = json.load(open(stamp))
             if st.get("key") == key:
-                return st["rc"], open(logf).read(), 0.0, True
+                return st["rc"], open(logf).read(), st.get("secs", 0.0), True
         except Exception:
             pass
     if os.path.exists(vo):
@@ -135,6 +163,11 @@ def parallel(jobs, workers=16):
 
 
 def build_gen_tool():
+    with Lock("gentool"):
+        return _build_gen_tool()
+
+
+def _build_gen_tool():
     out = os.path.join(BUILD, "gen")
     srcs = sorted(os.listdir(os.path.join(ROOT, "gen")))
     key = sha(*[open(os.path.join(ROOT, "gen", n), "rb").read() for n in srcs])
@@ -170,6 +203,11 @@ def run_gen(only):
 
 def build_harness():
     """(Re)build the Go harness against REPO. Returns path of the binary."""
+    with Lock("harness"):
+        return _build_harness()
+
+
+def _build_harness():
     hd = os.path.join(BUILD, "harness")
     os.makedirs(hd, exist_ok=True)
     src = os.path.join(ROOT, "harness")
